@@ -133,6 +133,42 @@ def decExtern : Sexp → Option (String × Signature)
   | .list [.atom "e", .str n, s] => (decSig s).map fun s => (n, s)
   | _ => none
 
+def decPArg : Sexp → Option (PragmaArg × Option (String × Bool))
+  | .list [.atom "id", .str n, b] => (decBool b).map fun b => (.ident n, some (n, b))
+  | .list [.atom "int", n] => n.asNat?.map fun n => (.int n, none)
+  | _ => none
+
+/-- a pragma and the user-identifier verdicts found in it (extern names and identifier tokens of the data) -/
+def decPragma : Sexp → Option (ExtPragma × List (String × Bool))
+  | .list [.atom "pragma", .str pname, .list (.atom "args" :: as), d] => do
+    let xs ← as.mapM decPArg
+    let tbl := xs.filterMap (·.2)
+    match d with
+    | .atom "nodata" => some (⟨pname, xs.map (·.1), none⟩, tbl)
+    | .list [.atom "data", .str _, lexS] =>
+      match ← decLex lexS with
+      | none => some (⟨pname, xs.map (·.1), some none⟩, tbl)
+      | some (toks, t2) => some (⟨pname, xs.map (·.1), some (some toks)⟩, tbl ++ t2)
+    | _ => none
+  | _ => none
+
+def mapErrAtom : MapErr → String
+  | .notExtern => "notextern" | .noName => "noname" | .invalidArgs => "invalidargs" | .noSignature => "nosignature"
+  | .lex => "lex" | .sig .syntax => "syntax" | .sig .noReturnOrParameters => "noret" | .sig .name => "name" | .name => "name"
+
+def encTy : ScalarType → Sexp
+  | .bit => .atom "BIT" | .integer => .atom "INTEGER" | .octet => .atom "OCTET" | .real => .atom "REAL"
+
+def encBool (b : Bool) : Sexp := .atom (if b then "true" else "false")
+
+def encSig (s : Signature) : Sexp :=
+  .list (.atom "sig" :: (match s.ret with | none => .atom "none" | some t => encTy t) ::
+    s.params.map fun p => .list [.atom "p", .str p.name, encBool p.mutable,
+      match p.ty with
+      | .scalar t => .list [.atom "s", encTy t]
+      | .fixed v => .list [.atom "f", encTy v.ty, .atom (toString v.len)]
+      | .varlen t => .list [.atom "v", encTy t]])
+
 private def ptypeTag : ParamType → String
   | .scalar _ => "scalar" | .fixed _ => "fixed" | .varlen _ => "varlen"
 
@@ -198,11 +234,42 @@ def handle (inp out : Sexp) : CaseResult :=
         detail := s!"model={repr mRes} impl={repr res}" }
     | _, _ => .bad s!"undecodable parse case {inp} {out}"
   | .list [.atom "call", .list (.atom "regions" :: rsS), .list (.atom "externs" :: esS), .str name,
-           .list (.atom "args" :: asS)] =>
-    match rsS.mapM decRegion, esS.mapM decExtern, asS.mapM decArg with
-    | some rs, some externs, some args =>
+           .list (.atom "args" :: asS), .list [.atom "how", .atom how, nameOkS]] =>
+    match rsS.mapM decRegion, esS.mapM decExtern, asS.mapM decArg, decBool nameOkS with
+    | some rs, some externs, some args, some nameOk =>
+     -- `Call::try_new` validates the name as a user identifier; the struct literal does not
+     if how == "new" && !nameOk then
+      { agree := out == .list [.atom "callnameerr"], specOk := out == .list [.atom "callnameerr"], nontrivial := false,
+        tags := ["call", "call-name-rejected"], detail := s!"expected callnameerr, impl={out}" }
+     else
+      let parts : Option (Sexp × Sexp) := match out with
+        | .list [.atom "res", a, b] => some (a, b)
+        | _ => none
+      match parts with
+      | none => { agree := false, specOk := false, nontrivial := false, tags := ["call", "call-unmodelled-outcome"],
+                  detail := s!"impl={out}" }
+      | some (outcomeS, accS) =>
       let m := resolveArguments rs externs name args
-      match decOutcome out with
+      let target0 := (externs.find? (fun e => e.1 = name)).map (·.2)
+      -- memory accesses reported for the same CALL: compared with the model as sets
+      let setEq (a b : List String) : Bool := a.all b.contains && b.all a.contains
+      let accOk : Bool := match target0, accS with
+        | none, .list [.atom "accerr"] => true
+        | some s, .list [.atom "acc", .list (.atom "reads" :: rS), .list (.atom "writes" :: wS), .atom "true"] =>
+          let (mr, mw) := callAccesses s args
+          let r := rS.filterMap Sexp.asStr?
+          let w := wS.filterMap Sexp.asStr?
+          setEq r mr && setEq w mw
+        | _, _ => false
+      -- consistency of the two observations on the implementation's own outputs: for a call that resolves, the
+      -- written regions are exactly those of the resolved arguments marked mutable, the read ones all of them
+      let accSpec : Bool := match decOutcome outcomeS, accS with
+        | some (.ok rs'), .list [.atom "acc", .list (.atom "reads" :: rS), .list (.atom "writes" :: wS), _] =>
+          let names := rs'.filterMap (fun | .vector n _ _ => some n | .memRef n _ _ _ => some n | .immediate _ _ => none)
+          let muts := rs'.filterMap (fun | .vector n _ true => some n | .memRef n _ _ true => some n | _ => none)
+          setEq (rS.filterMap Sexp.asStr?) names && setEq (wS.filterMap Sexp.asStr?) muts
+        | _, _ => true
+      match decOutcome outcomeS with
       | none => { agree := false, specOk := false, nontrivial := false, tags := ["call", "call-unmodelled-outcome"],
                   detail := s!"model={repr m} impl={out}" }
       | some o =>
@@ -231,11 +298,47 @@ def handle (inp out : Sexp) : CaseResult :=
           | some s, .err _ => !callTakesB rs s args
           | none, .err .noMatchingExtern => true
           | _, _ => false
-        { agree := agree, specOk := agree && resolvesSpec,
+        { agree := agree && accOk, specOk := agree && resolvesSpec && accSpec,
           nontrivial := match o with | .err .noMatchingExtern => false | .err (.parameterCount ..) => false | _ => args.length ≥ 1,
-          tags := ["call"] ++ slotTags ++ outTags,
-          detail := s!"model={repr m} impl={repr o}" }
-    | _, _, _ => .bad s!"undecodable call case {inp}"
+          tags := ["call", "call-" ++ how] ++ slotTags ++ outTags ++
+            (if args.length > arity (target0.getD ⟨none, []⟩) + 1 then ["args-many-more"] else []) ++
+            (if args.isEmpty then ["args-none"] else []),
+          detail := s!"model={repr m} impl={repr o} acc={accS} accOk={accOk}" }
+    | _, _, _, _ => .bad s!"undecodable call case {inp}"
+  | .list (.atom "externmap" :: psS) =>
+    match psS.mapM decPragma with
+    | some xs =>
+      let ps := xs.map (·.1)
+      let isUser := lookupUser (xs.flatMap (·.2))
+      let mRes : Sexp := match externMap isUser ps with
+        | .ok l => .list (.atom "ok" :: l.map fun (n, s) => .list [.atom "e", .str n, encSig s])
+        | .error (k, e) => .list [.atom "err", (match k with | none => .atom "none" | some n => .list [.atom "some", .str n]),
+            .atom (mapErrAtom e)]
+      let mEach : Sexp := .list (.atom "each" :: ps.map fun p => match sigOfPragma isUser p with
+        | .ok s => .list [.atom "ok", encSig s]
+        | .error e => .list [.atom "err", .atom (mapErrAtom e)])
+      match out with
+      | .list [.atom "res", api, each, viaText, viaAdd] =>
+        -- on the implementation's output: every accepted entry is a valid signature under a user-identifier name,
+        -- names are distinct, and the print/parse and `+` routes build the same map
+        let specOk := viaText != .atom "differs" && viaAdd == .atom "same" &&
+          (match api with
+           | .list (.atom "ok" :: es) =>
+             let names := es.filterMap (fun | .list [.atom "e", .str n, _] => some n | _ => none)
+             names.length == es.length && names.eraseDups.length == names.length && names.all isUser &&
+             es.all (fun | .list [.atom "e", _, sS] => (match decSig sS with | some sg => validSigB isUser sg | none => false) | _ => false)
+           | _ => true)
+        { agree := api == mRes && each == mEach, specOk := specOk,
+          nontrivial := ps.length ≥ 2 || ps.any (fun p => p.args.length ≠ 1),
+          tags := ["externmap", s!"pragmas{min ps.length 5}",
+            (match api with | .list (.atom "ok" :: _) => "map-ok" | .list [.atom "err", _, .atom c] => "map-err-" ++ c | _ => "map-odd"),
+            (match viaText with | .atom a => "text-" ++ a | _ => "text-odd")] ++
+            (if ps.any (fun p => p.args.length ≥ 2) then ["pragma-multi-arg"] else []) ++
+            (if ps.any (fun p => pragmaKey p = none) then ["pragma-nameless"] else []) ++
+            (if (ps.filterMap pragmaKey).eraseDups.length < (ps.filterMap pragmaKey).length then ["pragma-duplicate-name"] else []),
+          detail := s!"model={mRes} {mEach} impl={out}" }
+      | _ => { agree := false, specOk := false, nontrivial := false, tags := ["externmap"], detail := s!"impl={out}" }
+    | none => .bad s!"undecodable externmap case {inp}"
   | _ => .bad s!"undecodable input {inp}"
 
 end QV.C31
